@@ -1,7 +1,8 @@
 // Shared between the Kani crate (/verif/kani/core) and the native replay crate (/verif/replay/core).
 
 pub mod subscribers {
-    include!("/repo/worterbuch/src/subscribers.rs");
+    model_prelude!();
+    src!("subscribers.rs");
 
     #[cfg(any(kani, feature = "vreplay"))]
     mod h {
@@ -11,7 +12,8 @@ pub mod subscribers {
 }
 
 pub mod store {
-    include!("/repo/worterbuch/src/store.rs");
+    model_prelude!();
+    src!("store.rs");
 
     #[cfg(any(kani, feature = "vreplay"))]
     mod h {
@@ -20,6 +22,7 @@ pub mod store {
         include!("/verif/kani/core/src/h/c01.rs");
         include!("/verif/kani/core/src/h/c01_gen.rs");
         include!("/verif/kani/core/src/h/c04_gen.rs");
+        include!("/verif/kani/core/src/h/c06.rs");
         #[cfg(kani)]
         include!("/verif/kani/core/src/h/probe.rs");
     }
